@@ -1039,11 +1039,54 @@ def run_child(jobs, hashseed, order):
     return {index: result for index, result in zip(order, results)}
 
 
+def run_children(jobs, hashseeds, rng=None):
+    """The same jobs in several fresh interpreters at once, one per hash seed (each in its own job order when `rng`
+    is given) -> [(hashseed, results by job index)]."""
+    from harness import c19_history
+    started = []
+    for hashseed in hashseeds:
+        order = list(range(len(jobs)))
+        if rng is not None:
+            rng.shuffle(order)
+        with tempfile.NamedTemporaryFile('w', suffix='.json', delete=False) as handle:
+            json.dump([jobs[i] for i in order], handle)
+        env = dict(os.environ, PYTHONHASHSEED=str(hashseed), SOURCE_DATE_EPOCH=c19_history.EPOCH)
+        proc = subprocess.Popen([sys.executable, str(HERE.parent / 'harness' / 'c19_history.py'), handle.name],
+                                stdout=subprocess.PIPE, stderr=subprocess.PIPE, text=True, env=env)
+        started.append((hashseed, order, handle.name, proc))
+    out = []
+    failure = None
+    for hashseed, order, path, proc in started:
+        try:
+            stdout, stderr = proc.communicate(timeout=900)
+        finally:
+            os.unlink(path)
+        if proc.returncode != 0:
+            failure = failure or ('history child failed: ' + stderr[-800:])
+            continue
+        results = json.loads(stdout)['results']
+        out.append((hashseed, {index: result for index, result in zip(order, results)}))
+    if failure:
+        raise RuntimeError(failure)
+    return out
+
+
+def hashseed_clause(job, hashseeds=(0, 1, 2, 3, 5, 8, 13, 4242)):
+    """C19 'in a fresh process with a different hash seed … the same layout and a byte-identical PDF', stated on the
+    implementation for one job: several fresh interpreters, one per PYTHONHASHSEED, must agree."""
+    results = run_children([job], hashseeds)
+    signatures = {hashseed: history_signature(result[0]) for hashseed, result in results}
+    if len(set(signatures.values())) > 1:
+        return f'fresh processes disagree on the same input, by PYTHONHASHSEED: {signatures}'
+    return None
+
+
 def make_history_jobs(rng, count):
     from harness import c19_history
     jobs = []
-    for _ in range(count):
-        html, features = c19_history.gen_rich_doc(rng)
+    for number in range(count):
+        stateful = c19_history.STATEFUL_FEATURES
+        html, features = c19_history.gen_rich_doc(rng, force=[stateful[number]] if number < len(stateful) else ())
         options = dict(rng.choice(BASE_OPTION_SETS))
         image_set = rng.randrange(len(IMAGE_OPTION_SETS))
         options.update(IMAGE_OPTION_SETS[image_set])
@@ -1067,27 +1110,54 @@ def section_history(run):
     sec = run.section(
         'history (validation)',
         'SEARCH/VALIDATION, not a model correspondence: random documents (lists, tables, flex, grid, floats, images, '
-        'target-counter, running strings, footnotes, columns, quotes, counter styles, …) rendered in histories of 2..6 '
+        'target-counter, running strings, footnotes, columns, quotes, counter styles, inline <svg> and SVG images with '
+        '<use x y> / inherited presentation attributes / gradients / clip paths / markers, text with two or three '
+        'decoration lines, …; every job pool holds each of the state-carrying features) rendered (a) in 8 / 15 fresh '
+        'processes at once, each under its own PYTHONHASHSEED and job order, (b) twice from one HTML object, each '
+        'Document written twice, (c) in histories of 2..6 '
         'renders that share or do not share the HTML object, CSS objects, the font configuration, the image cache '
         '(dict / DiskCache), the counter style; each render is compared (page count, layout fingerprint, PDF bytes with '
         'fixed identifier and SOURCE_DATE_EPOCH) with the same job rendered alone-in-order in a FRESH PROCESS under '
         'another PYTHONHASHSEED; caller-owned objects are deep-snapshotted before / after; the driver only echoes the '
         'reference; non-trivial = the render is not the first of its history')
     jobs = make_history_jobs(run.rng, run.n(8, 70))
-    seeds = [run.rng.randrange(1, 2 ** 31)] + ([0, 1, 4242] if run.thorough else [])
-    references = []
-    for hashseed in seeds:
-        order = list(range(len(jobs)))
-        run.rng.shuffle(order)
-        references.append((hashseed, run_child(jobs, hashseed, order)))
+    # set / dict iteration order differs between hash seeds with probability ~1/2 per pair: 8 (16) fresh processes,
+    # started together, each with its own seed and its own job order
+    seeds = [run.rng.randrange(1, 2 ** 31) for _ in range(run.n(5, 12))] + [0, 1, 4242]
+    references = run_children(jobs, seeds, run.rng)
     reference = references[0][1]
+    nonce = [0]
     # the fresh processes agree with each other
     for hashseed, other in references[1:]:
         for index in range(len(jobs)):
-            sec.add(sx.line('echo', history_signature(reference[index])), history_signature(other[index]),
-                    meta={'validation': 'process', 'job': jobs[index], 'hashseed': hashseed}, nontrivial=True,
-                    tags=['process-vs-process'])
-    nonce = [0]
+            nonce[0] += 1
+            sec.add(sx.line('echo', history_signature(reference[index]), nonce[0]), history_signature(other[index]),
+                    meta={'validation': 'process', 'job': jobs[index], 'hashseed': hashseed,
+                          'reference_hashseed': references[0][0]}, nontrivial=True, tags=['process-vs-process'])
+    # every job twice from ONE HTML object (and each Document written twice), in an environment of its own
+    for index, job in enumerate(jobs):
+        env = c19_history.fresh_env()
+        html = c19_history.make_html(env, job['html'])
+        sheets = c19_history.make_sheets(env, job)
+        for attempt in range(2):
+            write_twice = 'dpi' not in job['options']
+            try:
+                result = c19_history.run_job(job, env=env, html=html, sheets=sheets, write_twice=write_twice)
+            except Exception as exc:  # noqa: BLE001
+                result = {'error': f'{type(exc).__name__}: {exc}'}
+            how = {'same_html_object': True, 'attempt': attempt, 'write_twice': write_twice}
+            nonce[0] += 1
+            sec.add(sx.line('echo', history_signature(reference[index]), nonce[0]), history_signature(result),
+                    meta={'validation': 'history', 'job': job, 'how': how}, nontrivial=attempt > 0,
+                    tags=['same-html-object', f'attempt{attempt}'])
+            if 'error' not in result:
+                sec.add(sx.line('echo', 'unchanged', nonce[0]),
+                        'mutated:' + ','.join(result['mutated']) if result['mutated'] else 'unchanged',
+                        meta={'validation': 'mutation', 'job': job, 'how': how}, nontrivial=True, tags=['snapshot'])
+                if write_twice:
+                    sec.add(sx.line('echo', result['pdf'], nonce[0]), result['pdf_again'],
+                            meta={'validation': 'write-twice', 'job': job, 'how': how}, nontrivial=True,
+                            tags=['write-twice'])
     for _ in range(run.n(10, 110)):
         length = run.rng.randrange(2, 7)
         share_env = run.rng.random() < 0.6
@@ -1344,6 +1414,24 @@ def finding_font_config():
     return cold['layout'] != warm['layout']
 
 
+def finding_svg_rewrites_tree():
+    """An inline <svg> with a pattern / mask / white space in <text> / a nested <svg> without size: drawing rewrites
+    the element tree it was given (`pattern` becomes `svg`, `mask` becomes `g`, text nodes are normalised), i.e. the
+    caller's HTML tree, and a second render of the same HTML object no longer finds the pattern."""
+    import random
+    from xml.etree import ElementTree
+    from harness import c19_history
+    os.environ['SOURCE_DATE_EPOCH'] = c19_history.EPOCH
+    source = ('<style>svg{display:block}</style>' + c19_history.gen_svg(random.Random(0), 'f', rewriting=True))
+    env = c19_history.fresh_env()
+    html = c19_history.make_html(env, source)
+    before = ElementTree.tostring(html.etree_element)
+    first = html.render(env[1]).write_pdf(pdf_identifier=b'x')
+    mutated = ElementTree.tostring(html.etree_element) != before
+    second = html.render(env[1]).write_pdf(pdf_identifier=b'x')
+    return mutated or first != second
+
+
 def finding_bleedbox_cap():
     """bleed 20px: BleedBox at zoom 2 is not 2 x BleedBox at zoom 1 (the 10pt cap is not scaled)."""
     document = docs.render('<style>@page{size:100px;margin:0;bleed:20px}</style>')
@@ -1594,7 +1682,8 @@ class C19(PropCheck):
         return {'stale-link-annotation': finding_stale_link_annotation,
                 'dpi-thumbnail-replaces-source': finding_dpi_rewrite,
                 'image-cache-ignores-options': finding_cache_options, 'bleedbox-cap-not-zoomed': finding_bleedbox_cap,
-                'font-config-accumulates-font-faces': finding_font_config}
+                'font-config-accumulates-font-faces': finding_font_config,
+                'svg-rewrites-element-tree': finding_svg_rewrites_tree}
 
     def replay(self, data):
         from harness import c19_history
@@ -1611,6 +1700,9 @@ class C19(PropCheck):
                                 [(u, f, tuple(o) if isinstance(o, list) else o) for u, f, o in inp['calls']])
         if kind == 'history':
             job = inp['job']
+            what = hashseed_clause(job)
+            if what:
+                return what
             reference = run_child([job], 99, [0])[0]
             env = c19_history.fresh_env()
             html = c19_history.make_html(env, job['html'])
@@ -1657,5 +1749,6 @@ MANIFEST = {
             'findings: BleedBox 10pt cap is not scaled by zoom; pdf/ua-1 of a '
             'copy depends on an earlier write (stale link_annotation); dpi: the '
             'first write replaces the image source by its thumbnail; the image cache ignores the image options; a '
-            'document\'s @font-face stays registered in the caller\'s FontConfiguration.',
+            'document\'s @font-face stays registered in the caller\'s FontConfiguration; drawing an inline <svg> with '
+            'patterns / masks / text white space rewrites the caller\'s HTML tree.',
 }
